@@ -1439,7 +1439,14 @@ orc_compiler_get_constant (OrcCompiler *compiler, int size, int value)
     }
   }
   if (i == compiler->n_constants) {
-    compiler->n_constants++;
+    if (compiler->n_constants >= ORC_N_CONSTANTS) {
+      /* table full: fail the compilation and recycle the last slot */
+      ORC_COMPILER_ERROR (compiler, "too many constants");
+      compiler->result = ORC_COMPILE_RESULT_UNKNOWN_COMPILE;
+      i = ORC_N_CONSTANTS - 1;
+    } else {
+      compiler->n_constants++;
+    }
     compiler->constants[i].value = v;
     compiler->constants[i].alloc_reg = 0;
     compiler->constants[i].use_count = 0;
@@ -1487,7 +1494,13 @@ orc_compiler_try_get_constant_long (OrcCompiler *compiler,
     }
   }
   if (i == compiler->n_constants) {
-    compiler->n_constants++;
+    if (compiler->n_constants >= ORC_N_CONSTANTS) {
+      ORC_COMPILER_ERROR (compiler, "too many constants");
+      compiler->result = ORC_COMPILE_RESULT_UNKNOWN_COMPILE;
+      i = ORC_N_CONSTANTS - 1;
+    } else {
+      compiler->n_constants++;
+    }
     compiler->constants[i].full_value[0] = a;
     compiler->constants[i].full_value[1] = b;
     compiler->constants[i].full_value[2] = c;
